@@ -974,17 +974,24 @@ def run_path(fn: Callable[[Any], None], make_inputs: Callable[[Ctx], Any], prefi
     return res, c
 
 
-def explore(fn, make_inputs, max_paths: int = 100000, witness_policy=None):
-    """Depth-first exploration of all paths of a harness."""
+def explore(fn, make_inputs, max_paths: int = 100000, witness_policy=None, stop_after_failures: int = 24):
+    """Depth-first exploration of all paths of a harness.  Once `stop_after_failures`
+    paths have produced counterexample candidates the instance stops early: a violation
+    is already in hand and enumerating every further failing path adds nothing."""
     work: List[List[Any]] = [[]]
     results: List[PathResult] = []
     stats = Stats()
+    nfail = 0
     while work:
+        if nfail >= stop_after_failures:
+            break
         prefix = work.pop()
         ww = True if witness_policy is None else witness_policy(len(results))
         res, c = run_path(fn, make_inputs, prefix, ww)
         stats.add(c.stats)
         results.append(res)
+        if res.failed:
+            nfail += 1
         work.extend(c.pending)
         if len(results) >= max_paths:
             r = PathResult()
